@@ -84,6 +84,57 @@ def build_extractor():
     return exe
 
 
+def modelled_files(prop):
+    """the Go files a property's model is written from: named in `modelled` and in the `generated` anchors"""
+    files = set()
+    for m in prop.get("modelled", []):
+        files.update(re.findall(r"(?:pkg|rpc|cmd)/[\w/.\-]+\.go", m))
+    for g in prop.get("generated", []):
+        if g.get("file", "").endswith(".go") and not g["file"].startswith(".."):
+            files.add(g["file"])
+    return sorted(f for f in files if os.path.exists(os.path.join(REPO, f)))
+
+
+def fingerprints(files):
+    """sha1 per file of its comment-free, gofmt-normalised function sources and constant values (from the extractor)"""
+    if not files:
+        return {}
+    exe = build_extractor()
+    rc, out, _ = sh([exe, REPO] + list(files), timeout=120)
+    try:
+        data = json.loads(out[out.index("{"):])
+    except ValueError:
+        return {}
+    fps = {}
+    for f in files:
+        d = data.get(f)
+        if not d:
+            fps[f] = "unparseable"
+            continue
+        h = hashlib.sha1()
+        for name in sorted(d["funcs"]):
+            h.update(name.encode() + b"\0" + d["funcs"][name]["src"].encode() + b"\0")
+        for name in sorted(d["consts"]):
+            h.update(name.encode() + b"=" + d["consts"][name]["value"].encode() + b"\0")
+        fps[f] = h.hexdigest()
+    return fps
+
+
+FP_BASE = os.path.join(VERIF, "harness", "fingerprints.json")
+
+
+def changed_model_sources(prop):
+    """modelled files whose fingerprint differs from the committed baseline (the tree the models were written
+    from): used only to search harder, never to raise an alarm"""
+    files = modelled_files(prop)
+    try:
+        base = json.load(open(FP_BASE))
+    except Exception:
+        return []
+    now = fingerprints(files)
+    return sorted(f for f in files if f in base and now.get(f) != base[f])
+
+
 def coq_string_bytes(s):
     return '(x "%s")' % s.encode("utf8").hex()
 
